@@ -188,6 +188,74 @@ theorem state_is_lbfgs_data [Dcsrch.DcOps K] (u : User K ε) (c : Cfg K) (e : K)
   rw [hfit] at this
   exact this
 
+/-- no bound interferes at a state with an EMPTY memory (first iteration, after a reset), on the data: `B = I`, the unconstrained Cauchy
+step is 1 and the quasi-Newton point is the Cauchy point `x − g` -/
+def NoBoundData0 (c : Cfg K) (s : St K) : Prop :=
+  (∃ T, 1 < T ∧ InBoxF c.lb c.ub (vsub s.x (smul T s.g))) ∧ StrictIn c.lb c.ub (vsub s.x (smul 1 s.g))
+
+/-- **C12 (state level, data only, empty memory)**: the iteration aims at `x − g` -/
+theorem state_is_lbfgs_data0 [Dcsrch.DcOps K] (u : User K ε) (c : Cfg K) (e : K) (s : St K) (hi : DInvS u c s)
+    (hbx : BoxOk c.lb c.ub) (hn : 0 < c.lb.length) (he : 0 ≤ c.epsSY) (hX : ¬ s.X.length > 1) (hg : vec s.x.length s.g ≠ 0)
+    (hfl : FloorOK c e s) (hnb : NoBoundData0 c s) :
+    vec s.x.length ((concreteOracles c.lb c.ub e).xbar s.x s.g s.mats) = quasiNewtonPoint s := by
+  have hfit : fitTo s.x s.g = s.g := fitTo_eq s.x s.g hi.glen
+  have hbox : InBoxF c.lb c.ub s.x := by
+    apply inBoxF_of_inBox
+    rw [← hi.inbox]
+    exact clip_inBox hbx s.x hi.xlen
+  obtain ⟨⟨T, hT, hTbox⟩, hstrict⟩ := hnb
+  have hxn : 0 < s.x.length := by rw [hi.xlen]; exact hn
+  -- the kernel input of an empty memory
+  have hki : kernelInput s.x s.g c.lb c.ub none e =
+      { x := s.x, g := s.g, lb := c.lb, ub := c.ub, theta := 1, W := s.x.map fun _ => [0], Minv := [[0]], useFactor := false, epsFsec := e } := by
+    simp only [kernelInput, hfit]
+  have hmin : MinCtx (kernelInput s.x s.g c.lb c.ub none e) s.x.length 1 (0 : Matrix (Fin 1) (Fin 1) K)
+      (f2orgOf (kernelInput s.x s.g c.lb c.ub none e)) := by
+    apply C08.minCtx_nopairs _ s.x.length 1 (by rw [hki]) (by rw [hki]; exact hi.glen) (by rw [hki]; simp)
+      (by
+        intro r hr
+        rw [hki]
+        show ((s.x.map fun _ => ([0] : Vec K)).getD r []).length = 1
+        rw [List.getD_eq_getElem?_getD, List.getElem?_map, List.getElem?_eq_getElem hr]
+        rfl)
+      (by rw [hki]) (by rw [hki]; exact one_pos) (by rw [hki]; exact hbox)
+    intro dd hne hpat
+    have := hfl dd hne (by rw [hki] at hpat; exact hpat)
+    rw [if_neg hX, hi.mats, if_neg hX, one_mulVec] at this
+    rw [hki]
+    show e * _ ≤ (1 : K) * (dd ⬝ᵥ dd)
+    rw [one_mul]
+    rw [hki] at this
+    exact this
+  have hk : kOf (kernelInput s.x s.g c.lb c.ub none e) = 1 := by
+    rw [hki]
+    unfold kOf
+    cases hxs : s.x with
+    | nil => rw [hxs] at hxn; simp at hxn
+    | cons a as => rfl
+  have hB1 : ∀ v : Fin s.x.length → K,
+      bmat (kernelInput s.x s.g c.lb c.ub none e).theta (wmat s.x.length 1 (kernelInput s.x s.g c.lb c.ub none e).W) (0 : Matrix (Fin 1) (Fin 1) K) *ᵥ v = v := by
+    intro v
+    rw [bmat_mulVec, zero_mulVec, mulVec_zero, sub_zero, hki, one_smul]
+  have hgk : vec s.x.length (kernelInput s.x s.g c.lb c.ub none e).g = vec s.x.length s.g := by rw [hki]
+  have hone : (vec s.x.length s.g ⬝ᵥ vec s.x.length s.g) / (vec s.x.length s.g ⬝ᵥ vec s.x.length s.g) = 1 :=
+    div_self (ne_of_gt (dot_self_pos _ hg))
+  have hstep := C08.cauchy_unconstrained_step (kernelInput s.x s.g c.lb c.ub none e) s.x.length 1 0 hk hmin
+    (by rw [hgk]; exact hg) T (by rw [hB1, hgk, hone]; exact hT) (by rw [hki]; exact hTbox)
+  rw [hB1, hgk, hone] at hstep
+  have hstep' : (cauchy (kernelInput s.x s.g c.lb c.ub none e)).1 = vsub s.x (smul 1 s.g) := by rw [hstep, hki]
+  -- the general state theorem, with its hypothesis on the Cauchy point discharged
+  refine state_is_lbfgs u c e s hi hbx hn he hfl ⟨by rw [hi.mats, if_neg hX, hstep']; exact hstrict, ?_⟩
+  intro r
+  unfold quasiNewtonPoint
+  rw [if_neg hX]
+  have hb1 := inBoxF_of_strict hstrict
+  have e1 : smul (1 : K) s.g = s.g := smul_one' s.g
+  rw [e1] at hb1
+  have hl : (vsub s.x s.g).length = s.x.length := by simp [vsub, vzip_length', hi.glen]
+  rw [← vec_vsub s.x.length s.x s.g rfl hi.glen]
+  exact inBoxF_getD hb1 r (by rw [hl]; exact r.2)
+
 open C06 in
 /-- **C12 (run level, data only)** at every loop-head state with stored pairs a fresh run of the complete model reaches -/
 theorem run_iteration_is_lbfgs_data [Dcsrch.DcOps K] (u : User K ε) (c : Cfg K) (e a : K)
@@ -290,6 +358,37 @@ example : ∃ s0 : St ℚ,
       intro dd _ _
       rw [zero_mul, if_neg (by omega), one_mulVec]
       exact Finset.sum_nonneg fun j _ => mul_self_nonneg (dd j)
+    · simp at h
+  · simp at h
+
+/-- the data-only form at the same state: no evaluation of the model's Cauchy routine is needed to see that no bound interferes
+(`x − 2g = (−1, −1)` is in the box, `x − g = (0, 0)` strictly) -/
+example : ∃ s0 : St ℚ,
+    vec s0.x.length ((concreteOracles simCfg.lb simCfg.ub 0).xbar s0.x s0.g s0.mats) = quasiNewtonPoint s0 := by
+  have h := nbCheck_true
+  unfold nbCheck at h
+  split at h
+  · rename_i i0 hi0
+    split at h
+    · rename_i s0 hp0
+      simp only [Bool.and_eq_true, decide_eq_true_eq, Option.isNone_iff_eq_none] at h
+      obtain ⟨⟨⟨⟨hX, hm⟩, hx⟩, hgv⟩, h2⟩ := h
+      have hdinv := fresh_dinv simUser simCfg (1 / 1000) rfl rfl rfl rfl rfl (by simp only [simCfg, BoxOk]; norm_num) rfl
+        (by intro x g h; simp only [gradSpec, simCfg, simUser, Except.ok.injEq] at h; rw [← h]) i0 s0 hi0 hp0
+      refine ⟨s0, state_is_lbfgs_data0 simUser simCfg 0 s0 hdinv (by simp only [simCfg, BoxOk]; norm_num) (by decide) (le_refl _)
+        (by omega) ?_ ?_ ⟨⟨2, by norm_num, ?_⟩, ?_⟩⟩
+      · rw [hx, hgv]
+        intro e
+        have := congrFun e ⟨0, by decide⟩
+        simp [vec] at this
+      · intro dd _ _
+        rw [zero_mul, if_neg (by omega), one_mulVec]
+        exact Finset.sum_nonneg fun j _ => mul_self_nonneg (dd j)
+      · rw [hx, hgv]
+        simp [simCfg, InBoxF, vsub, smul, vzip]
+        norm_num
+      · rw [hx, hgv]
+        simp [simCfg, StrictIn, vsub, smul, vzip]
     · simp at h
   · simp at h
 
